@@ -28,6 +28,10 @@ CHECKS = {
          "the size limit) under the real SingleEvaluator / InsightsEvaluator / JsonFormat, serial, incremental and on SimPool with seeded "
          "interleavings traced through evaluators.py; counting oracle: each rule in exactly the predicted bucket, entry fields, totals",
          "deterministic simulation: seeded SimPool interleavings of the evaluator observer + fault plans on rule bodies; exactly-one-outcome accounting against the reference model"),
+ "C17": ("w5", "3.C17", "histories of client operations (identifier reads/regenerations, register/unregister/marker deletions) interleaved with "
+         "environment events and injected I/O faults, from every initial directory state, against the real helpers on a real scratch tree; "
+         "invariants after every step: canonical + stable identifier, no rewrite by a read (audit-hook monitor), never both markers, planted symlinks replaced not followed",
+         "deterministic simulation with fault injection: generated operation/environment histories + n-th-syscall I/O faults (audit hook), seeded uuid/clock/peer; invariants after every step"),
 }
 NA = [
   ("C13", "pure function of two (epoch, version, release) strings; no schedule, clock, fault or history for a simulator to own (DESIGN.md section 5)"),
@@ -39,6 +43,7 @@ NA = [
   ("C20", "query evaluation is a pure function of (tree, query, options) (DESIGN.md section 5)"),
 ]
 ENGINES = {
+ "w5": ("worlds/w5_clientstate.py", "W5: client state directory histories on a scratch tree with seeded uuid/clock/RHSM peer and audit-hook I/O monitor + fault injector"),
  "w1s": ("worlds/w1_specs.py", "W1s: spec-set registration histories through the real SpecSetMeta, evaluated by the real engine"),
  "w1r": ("worlds/w1_rules.py", "W1r: real evaluators/formatters over W1 programs with rich rule return plans; insights.get_pool -> SimPool"),
  "w1": ("worlds/w1_engine.py", "W1: real dr/plugins engine on generated component programs under SimPool / SimClock / SimSignal with a reference model"),
